@@ -6,6 +6,7 @@ package main
 // (wrapped/joined) into another variable that is itself consumed.
 
 import (
+	"go/token"
 	"fmt"
 	"go/ast"
 	"go/types"
@@ -113,6 +114,30 @@ func (f *Flat) consumes(fi *FuncInfo, n *GNode, E types.Object, o flowOpts) (boo
 		return false, why
 	}
 	checkExpr := func(e ast.Expr) (bool, string) { return checkFor(e, E, 0) }
+	// the decorators deferred with the address of the named error result rewrite what a return statement hands out
+	decos := f.P.deferDecorators(fi)
+	checkReturned := func(e ast.Expr, E types.Object) (bool, string) {
+		if len(decos) == 0 {
+			return checkFor(e, E, 0)
+		}
+		saved := o
+		defer func() { o = saved }()
+		for _, d := range decos {
+			if viaAdapterFor(d.shape, d.param) {
+				o.sanitised = true
+			}
+		}
+		ok, why := checkFor(e, E, 0)
+		if !ok {
+			return ok, why
+		}
+		for _, d := range decos {
+			if dok, dwhy := checkFor(d.shape, d.param, 1); !dok && dwhy != "" {
+				return false, "the deferred " + d.callee.Obj.Name() + " rewrites the returned error: " + dwhy
+			}
+		}
+		return true, why + ", then decorated by the deferred " + decos[0].callee.Obj.Name()
+	}
 	viaAdapter := func(e ast.Expr) bool { return viaAdapterFor(e, E) }
 	_ = viaAdapter
 	switch s := n.Ast.(type) {
@@ -120,13 +145,18 @@ func (f *Flat) consumes(fi *FuncInfo, n *GNode, E types.Object, o flowOpts) (boo
 		if len(s.Results) == 0 {
 			for i := 0; i < sig.Results().Len(); i++ {
 				if sig.Results().At(i) == E {
+					for _, d := range decos {
+						if dok, dwhy := checkFor(d.shape, d.param, 1); !dok && dwhy != "" {
+							return false, "the deferred " + d.callee.Obj.Name() + " rewrites the returned error: " + dwhy
+						}
+					}
 					return true, "bare return of the named result"
 				}
 			}
 			return false, ""
 		}
 		for _, e := range s.Results {
-			if ok, why := checkExpr(e); ok {
+			if ok, why := checkReturned(e, E); ok {
 				return true, why
 			} else if why != "" {
 				return false, why
@@ -463,4 +493,71 @@ func (p *Prog) errShaper(fi *FuncInfo, c *ast.CallExpr) ([]types.Object, ast.Exp
 		return nil, nil
 	}
 	return params, last
+}
+
+// deferDeco: a deferred call that is handed the address of the function's named error result and rewrites it
+// (defer annotate(&err, "db set")): shape is the expression the decorator stores, with *param standing for the error
+// the function returns.
+type deferDeco struct {
+	param  types.Object
+	shape  ast.Expr
+	callee *FuncInfo
+	at     *ast.DeferStmt
+}
+
+func (p *Prog) deferDecorators(fi *FuncInfo) []deferDeco {
+	body := fi.body()
+	if body == nil {
+		return nil
+	}
+	info := fi.Pkg.TypesInfo
+	ftype, _ := fi.funcType()
+	named := map[types.Object]bool{}
+	if ftype.Results != nil {
+		for _, fld := range ftype.Results.List {
+			for _, nm := range fld.Names {
+				if o := info.Defs[nm]; o != nil && isErrorType(o.Type()) {
+					named[o] = true
+				}
+			}
+		}
+	}
+	if len(named) == 0 {
+		return nil
+	}
+	var res []deferDeco
+	walkNoLit(body, func(x ast.Node) bool {
+		d, ok := x.(*ast.DeferStmt)
+		if !ok {
+			return true
+		}
+		h := p.staticCallee(fi.Pkg, d.Call)
+		if h == nil || h.Pkg != fi.Pkg || h.Decl == nil || h.Decl.Body == nil {
+			return true
+		}
+		args := argExprs(d.Call, h)
+		for i, po := range paramObjs(h) {
+			if po == nil || i < 0 || args[i] == nil {
+				continue
+			}
+			u, ok := ast.Unparen(args[i]).(*ast.UnaryExpr)
+			if !ok || u.Op != token.AND || !named[objOf(info, u.X)] {
+				continue
+			}
+			ast.Inspect(h.Decl.Body, func(y ast.Node) bool {
+				as, ok := y.(*ast.AssignStmt)
+				if !ok || len(as.Lhs) != len(as.Rhs) {
+					return true
+				}
+				for j, l := range as.Lhs {
+					if st, ok := ast.Unparen(l).(*ast.StarExpr); ok && objOf(info, st.X) == po {
+						res = append(res, deferDeco{param: po, shape: as.Rhs[j], callee: h, at: d})
+					}
+				}
+				return true
+			})
+		}
+		return true
+	})
+	return res
 }
